@@ -113,6 +113,40 @@ CHECKS = {
              'within tolerance; tearsheet = JSON.',
         note='Drawdown definition evaluated on the reported cumulative series (float-noise safe). Order of aggregate groups is not compared.',
         design='5/C17'),
+    'C08': dict(
+        technique='exhaustive configuration/schedule enumeration of complete real sessions vs independent reference simulator',
+        text='Full Cartesian product of weight vectors (1-3 assets, long-only and signed), price-path shapes, 8 schedules '
+             '(weekly x 5, daily, end-of-month, buy-and-hold@14:30), 7 start alignments (and start time, length, buffer / '
+             'leverage, fee, cash in thorough): each point is a complete BacktestTradingSession on a CSV market loaded by the '
+             'real data source, compared fill by fill (time, asset, quantity, price, commission), final cash, holdings and '
+             'equity point by point with refmodel.Backtest, written from the documented rules in Fractions.',
+        note='Trusted: the reference simulator. Sessions where the rule hits an exact floor/rounding boundary are skipped and counted.',
+        design='5/C08'),
+    'C14': dict(
+        technique='exhaustive start/end/burn-in/schedule enumeration of complete real sessions vs calendar reference + ledger replay',
+        text='Full product of start (7 consecutive days x 00:00/14:30), length, burn-in (none, before start, every day of the range x '
+             'boundary times incl. exactly 21:00 and 21:01) and 8 rebalance kinds: the instants at which portfolio construction '
+             'ran, every fill instant, the equity dates and values (ledger replay of the recorded fills at that close) and both '
+             'user-facing tables are compared with the reference.',
+        note='Trusted: datetime calendar reference. Tables only consulted with >= 1 rebalance and a non-empty curve (quantifier).',
+        design='5/C14'),
+    'C16': dict(
+        technique='explicit-state BFS to fixpoint over price streams on the real signals + exhaustive session cadence enumeration',
+        text='Part 1: for each signal class and every non-empty lookback subset the search over append(asset, price) streams closes '
+             '(state = true trailing window U actual deque contents), so definitions and non-interference hold for streams of '
+             'every length over the alphabet. Part 2: complete sessions with a real SignalsCollection over start alignments, '
+             'lengths and every universe-entry variant of a second asset (before start, at open, exactly at / one second after '
+             'each close, after the end, never): each buffer holds exactly the closes since entry, one per business day.',
+        note='Trusted: list-based definitions; buffer contents read from AssetPriceBuffers.prices.',
+        design='5/C16'),
+    'C19': dict(
+        technique='exhaustive grids (membership, optimisers) + exhaustive entry-time x schedule enumeration of complete real sessions',
+        text='All entry maps over 3 assets x query instants around the boundary on the real universes; all weight dictionaries over '
+             '<= 3 assets through both optimisers; and the full product schedule x sizing x entry time of a late asset (incl. '
+             'exactly on, one minute before and after every rebalance instant) as complete sessions: allocation keys, fills and '
+             'positions only at rebalances >= entry and from the first such rebalance on.',
+        note='Order of the dynamic universe list not compared.',
+        design='5/C19'),
 }
 
 NOT_YET = 'check not built yet (work in progress, see DESIGN.md section 5)'
